@@ -6,13 +6,16 @@ QUICK = ["msg1005", "msg1006", "msg1004", "msg1012", "msg1013", "msg1017", "msg1
          "msg1057", "msg1059", "msg1065", "msg1230", "msg1042", "msg1300", "msg1071", "msg1074", "msg1077", "msg1087", "msg1127"]
 
 # MSM mask shapes: (satellite ids, signal-mask bit positions 1..32)
+# (satellite ids, signal-mask bit positions, cell mask as a bit string or None when the cell count is refused)
 MSM_SHAPES = {
-    "empty": ([], []),
-    "1x1": ([5], [2]),
-    "2x2": ([3, 40], [2, 3]),
-    "3x2": ([1, 2, 64], [2, 8]),
-    "8x8": ([1, 2, 3, 4, 5, 6, 7, 8], [2, 3, 4, 8, 9, 10, 15, 16]),
-    "9x8": ([1, 2, 3, 4, 5, 6, 7, 8, 9], [2, 3, 4, 8, 9, 10, 15, 16]),
+    "empty": ([], [], ""),
+    "1x1": ([5], [2], "1"),
+    "2x2": ([3, 40], [2, 3], "1101"),
+    "2x2full": ([3, 40], [2, 3], "1111"),
+    "3x2": ([1, 2, 64], [2, 8], "100111"),
+    "zero": ([3, 40], [2, 3], "0000"),
+    "8x8": ([1, 2, 3, 4, 5, 6, 7, 8], [2, 3, 4, 8, 9, 10, 15, 16], "1" + "0" * 62 + "1"),
+    "9x8": ([1, 2, 3, 4, 5, 6, 7, 8, 9], [2, 3, 4, 8, 9, 10, 15, 16], None),
 }
 
 
@@ -57,15 +60,13 @@ def generate(T, tier):
             satfr, sigfr = T.frags[segfr["sat_id"]], T.frags[segfr["sig_id"]]
             sat_w = sum(T.field[s]["len"] for _, s, _ in satfr["fields"])
             sig_w = sum(T.field[s]["len"] for _, s, _ in sigfr["fields"])
-            for sname, (sats, sigs) in MSM_SHAPES.items():
+            for sname, (sats, sigs, cm) in MSM_SHAPES.items():
                 nsat, nsig = len(sats), len(sigs)
                 ncell_max = nsat * nsig
-                if sname in ("8x8", "9x8") and not q:
+                if sname in ("8x8", "3x2", "2x2full", "1x1") and tier == "quick":
                     continue
-                # all cells set is the longest payload; the cell mask itself stays symbolic
-                bits = 12 + hdr + 64 + 32 + (ncell_max if ncell_max <= 64 else 0) + nsat * sat_w + min(ncell_max, 64) * sig_w
-                if sname in ("8x8",):
-                    bits = 12 + hdr + 64 + 32 + 64 + nsat * sat_w + 4 * sig_w   # few cells fit: rest hits the overflow path
+                ncells = cm.count("1") if cm is not None else 0
+                bits = 12 + hdr + 64 + 32 + (ncell_max if cm is not None else 0) + nsat * sat_w + ncells * sig_w
                 B = (bits + 7) // 8 + 1
                 satmask = 0
                 for s in sats:
@@ -73,6 +74,9 @@ def generate(T, tier):
                 sigmask = 0
                 for s in sigs:
                     sigmask |= 1 << (32 - s)
+                mask_patches = [(12 + hdr, 64, satmask), (12 + hdr + 64, 32, sigmask)]
+                if cm:
+                    mask_patches.append((12 + hdr + 96, len(cm), int(cm, 2)))
                 fin = []
                 G.finite_checks(mod, "m", 0, fin)
                 name = "%s_%s" % (mod, sname)
@@ -91,9 +95,9 @@ pub fn %s() {
         Err(_) => {}
     }
 }
-""" % (name, B, concrete_bytes([(12 + hdr, 64, satmask), (12 + hdr + 64, 32, sigmask)], B), mod, "\n            ".join(fin)))
-                hs.append({"name": "c02::%s" % name, "group": "msm", "tier": "quick" if (q and sname in ("empty", "2x2", "9x8")) else "thorough",
-                           "bounds": "%s: every %d-byte payload whose satellite/signal masks are the concrete shape %s (cell mask and all data symbolic)" % (mod, B, sname)})
+""" % (name, B, concrete_bytes(mask_patches, B), mod, "\n            ".join(fin)))
+                hs.append({"name": "c02::%s" % name, "group": "msm", "tier": "quick" if (mod in ("msg1074", "msg1077", "msg1127", "msg1087") and sname in ("empty", "2x2", "9x8", "zero")) else "thorough",
+                           "bounds": "%s: every %d-byte payload whose satellite, signal and cell masks are the concrete shape %s (%s), all row data symbolic" % (mod, B, sname, cm if cm is not None else "72 cells: refused")})
             continue
         fixed = not G.has_var(mod)
         cap = G.max_cap(mod)
@@ -182,7 +186,7 @@ pub fn %s() {
                       "Parser::parse, df::dfs::*::decode, frag_vec/frag_vec_with_len/frag_grid16p/msm_* decode, DataVec::push/set_len"],
         "bounds": {"fixed_layout": "full-length payload (all bit patterns of every field), full-1 and 3 bytes",
                    "lists": "count fields fixed to 0, 1, 2 per harness (and 3 with a body for 2: overflow path), every other bit symbolic; counts above capacity: C15",
-                   "msm": "satellite/signal masks from 6 concrete shapes (0x0, 1x1, 2x2, 3x2, 8x8=64 cells, 9x8=72 cells), cell mask and data symbolic",
+                   "msm": "satellite, signal and cell masks from 8 concrete shapes (0x0, 1x1, 2x2 partial/full/all-zero cell mask, 3x2, 8x8 = 64 cells, 9x8 = 72 cells), all row data symbolic; a symbolic cell mask makes the row counts symbolic and does not finish in 40 min",
                    "1059/1065": "0..2 satellites x 1 entry with a recognised / an unrecognised signal id, satellite ids and biases symbolic; the 391st push is C16's capacity harness",
                    "checks": "all Kani default checks (overflow, shifts, indices, unwrap, capacity panics) + floats finite + m == m",
                    "quick": "%d representative types; thorough: all %d" % (len(QUICK), len(T.messages))},
